@@ -254,7 +254,7 @@ func opshellCampaign(r *ev.Run) {
 	}
 	cfg, limit := "Opshell_q", 240
 	if r.Tier == "thorough" {
-		cfg, limit = "Opshell_t", 1<<30
+		cfg, limit = "Opshell_t", 5000
 	}
 	g := graph.New()
 	var mu sync.Mutex
